@@ -374,6 +374,11 @@ class Library:
             ty = parse_type(m.group(1))
             sz = max(1, (ty.bits or 8) // 8)
             return sz if m.group(3) == 'ALIGN' else sz * int(m.group(2))
+        m = re.match(r'^<std::mem::MaybeUninit<\[(.*); (\d+)\]> as std::mem::SizedTypeProperties>::(ALIGN|SIZE)$', name)
+        if m:
+            # element type without a known size (fn pointers, references, crate types) in a vec![..] literal: the constant
+            # is only the layout handed to the allocation, which the vec! model does not observe
+            return 8 if m.group(3) == 'ALIGN' else 8 * int(m.group(2))
         raise Unsupported('unknown constant %s' % name)
 
     # ------------------------------------------------------------ registration
